@@ -152,6 +152,8 @@ pub struct Plan {
     pub rng_seed: u64,
     pub retries: u32,
     pub clock_monotone: bool,
+    /// a stranger in the directory whose name is not valid UTF-8
+    pub raw_stranger: bool,
 }
 
 fn payload(id: u32, len: usize) -> Vec<u8> {
@@ -340,6 +342,7 @@ fn gen_plan(ch: &mut Choices, mode: &str, thorough: bool) -> Plan {
         rng_seed: ch.choose(1 << 30) as u64,
         retries: 2 + ch.choose(4),
         clock_monotone,
+        raw_stranger: c11 && ch.chance(1, 6),
     }
 }
 
@@ -461,6 +464,13 @@ pub fn exec_plan(
     let file_path = |name: &str| if cfg.dir.is_empty() { name.to_string() } else { format!("{}/{}", cfg.dir, name) };
     for (name, body, foreign) in &plan.existing {
         fs.seed_file(&file_path(name), body, *foreign);
+    }
+    if plan.raw_stranger {
+        let mut raw = cfg.prefix.as_bytes().to_vec();
+        raw.extend_from_slice(b"-caf\xe9.");
+        raw.extend_from_slice(cfg.ext.as_bytes());
+        fs.lock().raw_entries.push((cfg.dir.clone(), raw));
+        fs.lock().raw_entries.push((cfg.dir.clone(), b"\xff\xfe".to_vec()));
     }
     let clock = SimClock(Arc::new(Mutex::new(plan.start)));
     let rng = SimRng(Arc::new(Mutex::new(Rng::new(plan.rng_seed))));
@@ -1064,6 +1074,9 @@ impl Engine for Fsim {
             }
             if plan.existing.iter().any(|e| e.2) {
                 out.probe("foreign_files_in_directory");
+            }
+            if plan.raw_stranger {
+                out.probe("non_utf8_file_name_in_directory");
             }
             if plan.steps.iter().any(|s| matches!(s, Step::Restart)) {
                 out.probe("restart");
